@@ -208,6 +208,62 @@ def machine_vertices(chunks):
     return out
 
 
+def abs_list_correspondence(run):
+    """GCodeCore.to_absolute_list against model/Builder.v's, on dyadic points in both distance modes"""
+    from gscrib import GCodeBuilder
+    rng = run.rng
+    cases = []
+    for _ in range(300 if run.thorough else 50):
+        cur = [Fraction(rng.randint(-80, 80), 4) for _ in range(3)]
+        known = [rng.random() < 0.85 for _ in range(3)]
+        rel = rng.random() < 0.5
+        pts = []
+        for _ in range(rng.randint(0, 5)):
+            k = rng.choice([2, 3, 3])
+            pts.append([Fraction(rng.randint(-80, 80), 4) if rng.random() < 0.85 else None for _ in range(k)])
+        cases.append((cur, known, rel, pts))
+    body = ("Definition qp (q : Q) : Z * Z := (Qnum (Qred q), Zpos (Qden (Qred q))).\n"
+            "Definition oq (o : option Q) := match o with Some q => [qp q] | None => [] end.\n"
+            "Definition pp (p : point) := (oq (px p), oq (py p), oq (pz p)).\n")
+    impl = []
+    for cur, known, rel, pts in cases:
+        g = GCodeBuilder()
+        kw = {a: float(v) for a, v, k in zip("xyz", cur, known) if k}
+        if kw:
+            g.set_axis(**kw)
+        if rel:
+            g.set_distance_mode("relative")
+        res = g.to_absolute_list([tuple(None if v is None else float(v) for v in p) for p in pts])
+        impl.append([[None if c is None else Fraction(c) for c in (q.x, q.y, q.z)] for q in res])
+
+        def gq(v):
+            return "None" if v is None else "(Some (Qmake (%d) %d))" % (v.numerator, v.denominator)
+        gp = lambda p: "(mkpt %s %s %s)" % tuple(gq(v) for v in (list(p) + [None])[:3])
+        body += "Eval vm_compute in map pp (to_absolute_list (set_dm (set_pos init %s) %s) %s).\n" % (
+            gp([v if k else None for v, k in zip(cur, known)]), "Relative" if rel else "Absolute", g_list([gp(p) for p in pts]))
+    vals = []
+    for rc, out in coq_eval_many(PID, [("abslist", body)], "From GS Require Import model.Num model.Builder.\n", timeout=900):
+        if rc != 0:
+            run.log("model evaluation failed:\n" + out[-1500:])
+            run.violation("the model (coq/model/Builder.v, to_absolute_list) could not be evaluated", dict(theorem="C11_vertex_lists_agree"), no_input=True)
+            return 0
+        vals.extend(parse_evals(out))
+    if len(vals) != len(cases):
+        run.violation("the model (coq/model/Builder.v, to_absolute_list) could not be evaluated", dict(theorem="C11_vertex_lists_agree"), no_input=True)
+        return 0
+    n = 0
+    for (cur, known, rel, pts), val, im in zip(cases, vals, impl):
+        got = [[(Fraction(int(c[0][0]), int(c[0][1])) if c else None) for c in pt] for pt in parse_term(val)]
+        if got != im:
+            run.violation("model and implementation disagree on to_absolute_list(%r) from %r in %s mode: model %r, implementation %r" % (
+                [[None if v is None else float(v) for v in p] for p in pts], [float(v) if k else None for v, k in zip(cur, known)],
+                "relative" if rel else "absolute", [[None if v is None else float(v) for v in p] for p in got], [[None if v is None else float(v) for v in p] for p in im]),
+                dict(theorem="C11_vertex_lists_agree (coq/props/C11.v); correspondence: Builder.to_absolute_list"), no_input=True)
+            return n
+        n += 1
+    return n
+
+
 def main():
     run = Run(PID)
     st = standard_proof_phase(run, PID)
@@ -274,13 +330,14 @@ def main():
                           dict(path=[list(map(str, e)) for e in els]))
         if len(run.cov["samples"]) < 3:
             run.sample(dict(path=[list(map(str, e)) for e in els][:6], vertices=len(va) if va else None))
+    nabs = abs_list_correspondence(run)
     proof_broken_violation(run, st, found)
     run.cov["rule"] = ("logical toolpaths (absolute waypoints) of moves, rapids, absolute-bypass moves, nested absolute_mode()/"
                        "relative_mode() blocks and every tracer shape (arc incl. helical z, arc_radius, circle, spline, polyline, "
                        "helix, thread, spiral, parametric with a user curve in absolute coordinates) from random start "
                        "positions, executed once in absolute and once in relative mode (targets as offsets); machine vertices "
                        "reconstructed by the independent interpreter and compared one by one. non-trivial = >= 3 element kinds.")
-    run.finish(proof=st, extra=dict(input_distribution=dict(element_kinds=dist, invalid_in_both_modes=skipped)))
+    run.finish(proof=st, extra=dict(input_distribution=dict(element_kinds=dist, invalid_in_both_modes=skipped), to_absolute_list_cases_compared=nabs))
 
 
 if __name__ == "__main__":
